@@ -59,3 +59,6 @@ def run(ctx, res):
     # the grammar loader in front of all this (anonymous-terminal naming, pruning of unreachable rules / unused terminals): source-level metamorphic stream
     import compilelib
     compilelib.check(ctx, res, 11, 300, 6000)
+    # EBNF operators in front of the engines (language and trees of the grammar as written vs its hand-desugared form)
+    import ebnflib
+    ebnflib.check(ctx, res, 12, 150, 3000, big=False, label='EBNF')
